@@ -103,7 +103,7 @@ def model_value(model, term):
 class Config:
     def __init__(self, logic=None, feas_rlimit=20_000_000, ob_rlimit=200_000_000, max_decisions=400,
                  fresh_feas=False, ob_timeout_ms=0, feas_timeout_ms=0, max_cex_per_ob=6, max_paths=None,
-                 max_alternatives=48, soft_alternatives=0):
+                 max_alternatives=48, soft_alternatives=0, soft_samples=0, approx_rlimit=None, approx_timeout_ms=None):
         self.logic = logic
         self.feas_rlimit = feas_rlimit
         self.ob_rlimit = ob_rlimit
@@ -115,6 +115,9 @@ class Config:
         self.max_paths = max_paths
         self.max_alternatives = max_alternatives
         self.soft_alternatives = soft_alternatives    # extra diverse models requested for each soft counterexample
+        self.soft_samples = soft_samples              # ... plus models completed from randomly pinned inputs
+        self.approx_rlimit = approx_rlimit            # effort cap for obligations on paths with rounding-dependent choices
+        self.approx_timeout_ms = approx_timeout_ms
 
 
 def _mk_solver(logic, rlimit, timeout_ms=0):
@@ -137,20 +140,30 @@ class Run:
         self.decisions = []
         self.pc = []
         self.inputs = {}      # name -> z3 const (harness-declared inputs, used for counterexamples)
+        self.input_bounds = {}
         self.fresh_n = itertools.count()
         self.model = None     # a model of the current path condition, if known
         self.notes = {}       # free-form per-path info set by harness/shims
-        self.approx = None    # set (to a description) when the path used a rounding-dependent model choice:
-                              # counterexamples on it are 'soft' (believed only when they replay on the real code)
+        self.approx_conds = []   # z3 conditions under which a model choice on this path depended on the direction of a
+                                 # rounding error the model leaves open (a tie, a floor at an integer boundary): a
+                                 # counterexample satisfying one of them is 'soft' (believed only when it replays)
         self._inc = None
         if not self.cfg.fresh_feas:
             self._inc = _mk_solver(self.cfg.logic, self.cfg.feas_rlimit, self.cfg.feas_timeout_ms)
+
+    @property
+    def approx(self):
+        return bool(self.approx_conds)
+
+    def rounding_dependent(self, cond):
+        self.approx_conds.append(cond)
 
     # -- variables --------------------------------------------------------------------------
     def int(self, name, lo=None, hi=None):
         from .values import SymInt
         v = z3.Int(name)
         self.inputs[name] = v
+        self.input_bounds[name] = (lo, hi)
         if lo is not None:
             self._add(v >= lo)
         if hi is not None:
@@ -377,11 +390,11 @@ class Run:
     def reach(self, label):
         self.stats.reach[label] = self.stats.reach.get(label, 0) + 1
 
-    def check_sat(self, extra, logic=None, rlimit=None):
+    def check_sat(self, extra, logic=None, rlimit=None, timeout_ms=None):
         """Fresh-solver satisfiability of pc + extra.  Returns (verdict, model)."""
         t0 = time.time()
         s = _mk_solver(logic if logic is not None else self.cfg.logic, rlimit or self.cfg.ob_rlimit,
-                       self.cfg.ob_timeout_ms)
+                       timeout_ms or self.cfg.ob_timeout_ms)
         for c in self.pc:
             s.add(c)
         for e in extra:
@@ -406,19 +419,40 @@ class Run:
         if claim is False:
             claim = z3.BoolVal(False)
         d = self.stats.ob_names.setdefault(name, {"unsat": 0, "sat": 0, "unknown": 0})
-        if self.approx:
-            soft = True
-            if rlimit is None:
-                rlimit = min(self.cfg.ob_rlimit, 30_000_000)    # rounding-dependent path: decided by replay, not by effort
         neg = z3.Not(claim)
         extra = [neg] + list(hints)
         regions = [(None, [z3.Not(p) for (_fid, p) in exclude])]
         for fid, p in exclude:
             regions.append((fid, [p]))
         verdict = "unsat"
+        hard_soft = soft
         for fid, reg in regions:
             t0 = time.time()
-            r, m = self.check_sat(extra + reg, logic=logic, rlimit=rlimit)
+            soft = hard_soft
+            if self.approx_conds and self.cfg.approx_rlimit:
+                # rounding-dependent choices were made on this path: cap the effort (an undecided obligation is
+                # reported as such) - what can be found here is mostly decided by replay
+                r, m = self.check_sat(extra + reg, logic=logic, rlimit=min(rlimit or self.cfg.ob_rlimit, self.cfg.approx_rlimit),
+                                      timeout_ms=self.cfg.approx_timeout_ms)
+            else:
+                r, m = self.check_sat(extra + reg, logic=logic, rlimit=rlimit)
+            if r == "sat" and self.approx_conds and not hard_soft:
+                dep = False
+                for c in self.approx_conds:
+                    try:
+                        dep = dep or not z3.is_false(m.eval(c, model_completion=True))
+                    except z3.Z3Exception:
+                        dep = True
+                if dep:
+                    # the counterexample depends on an open rounding direction: look (with a small budget) for
+                    # one that does not; failing that it is soft - decided by replay, not by solver effort
+                    firm = [z3.Not(c) for c in self.approx_conds]
+                    r2, m2 = self.check_sat(extra + reg + firm, logic=logic, rlimit=min(rlimit or self.cfg.ob_rlimit, 30_000_000),
+                                            timeout_ms=60000)
+                    if r2 == "sat":
+                        m = m2
+                    else:
+                        soft = True
             if TRACE or time.time() - t0 > 20:
                 sys.stderr.write("[prove %s %s %.2fs case=%s]\n" % (name, r, time.time() - t0, self.ex.case_label))
                 sys.stderr.flush()
@@ -473,7 +507,9 @@ class Run:
             for block in (strong, weak):
                 if time.time() > t_end:
                     break
-                r, m = self.check_sat(list(extra) + block, logic=logic, rlimit=min(rlimit or self.cfg.ob_rlimit, 10_000_000))
+                # candidate search only: a wall-clock cap is harmless here (it never decides an obligation)
+                r, m = self.check_sat(list(extra) + block, logic=logic, rlimit=min(rlimit or self.cfg.ob_rlimit, 10_000_000),
+                                      timeout_ms=4000)
                 if r == "sat":
                     got = m
                     break
@@ -484,6 +520,37 @@ class Run:
                 x = model_value(got, v)
                 vals[k] = x if isinstance(x, (int, bool)) else str(x)
             seen.append(vals)
+            out.append(vals)
+        # further candidates: pin a random subset of the bounded integer inputs to random values (magnitudes
+        # log-uniform over the declared range) and let the solver complete the rest - each pinned query is
+        # much easier (often linear) and the candidates are spread over the whole input box
+        import random as _random
+        import zlib
+        rnd = _random.Random(zlib.crc32(repr(sorted(first.items())).encode()))
+        bounded = [(k, v) for k, v in ivars if self.input_bounds.get(k, (None, None))[0] is not None
+                   and self.input_bounds[k][1] is not None]
+        t_end = time.time() + 30
+        for _ in range(self.cfg.soft_samples if len(bounded) >= 2 else 0):
+            if time.time() > t_end:
+                break
+            nfree = rnd.randint(1, max(1, len(bounded) // 2))
+            free = set(rnd.sample(range(len(bounded)), nfree))
+            pins = []
+            for i, (k, v) in enumerate(bounded):
+                if i in free:
+                    continue
+                lo, hi = self.input_bounds[k]
+                mag = max(abs(lo), abs(hi), 1)
+                x = int(2 ** rnd.uniform(0, mag.bit_length())) * rnd.choice((1, -1))
+                x = min(max(x, lo), hi)
+                pins.append(v == x)
+            r, m = self.check_sat(list(extra) + pins, logic=logic, rlimit=5_000_000, timeout_ms=2000)
+            if r != "sat":
+                continue
+            vals = {}
+            for k, v in self.inputs.items():
+                x = model_value(m, v)
+                vals[k] = x if isinstance(x, (int, bool)) else str(x)
             out.append(vals)
         return out
 
